@@ -45,26 +45,26 @@ type Place struct {
 }
 
 type Obligation struct {
-	Name    string
-	Kind    string
-	Props   []string
-	Func    string
-	Behav   string
-	Goal    string
-	At      string   // point predicate
-	Hoisted []string // assumptions of dominators
-	Pos     token.Position
-	Claimed bool
-	Text    string
-	Cover   bool // a cover query: expected SAT
-	block   *ssa.BasicBlock
-	bg      *string
-	Result  *SolveResult
+	Name     string
+	Kind     string
+	Props    []string
+	Func     string
+	Behav    string
+	Goal     string
+	At       string   // point predicate
+	Hoisted  []string // assumptions of dominators
+	Pos      token.Position
+	Claimed  bool
+	Text     string
+	Cover    bool // a cover query: expected SAT
+	block    *ssa.BasicBlock
+	bg       *string
+	Result   *SolveResult
 	RawQuery string // a complete query (audits); bypasses the function VC
 	RawBits  int
 	Witness  string
-	Replay  *ReplayResult
-	Vars    []ModelVar
+	Replay   *ReplayResult
+	Vars     []ModelVar
 }
 
 type ModelVar struct {
@@ -88,54 +88,57 @@ type blockInfo struct {
 }
 
 type loopInfo struct {
-	head   *ssa.BasicBlock
-	blocks map[*ssa.BasicBlock]bool
-	backs  []*ssa.BasicBlock
-	key    []string // names this loop answers to: ordinal, label
-	writes map[string]bool
-	decr   []string // measure terms at head
+	head    *ssa.BasicBlock
+	blocks  map[*ssa.BasicBlock]bool
+	backs   []*ssa.BasicBlock
+	key     []string // names this loop answers to: ordinal, label
+	writes  map[string]bool
+	decr    []string // measure terms at head
 	entrySt State
 }
 
 type FnVC struct {
-	w       *World
-	fn      *ssa.Function
-	fc      *FuncContract
-	behav   string
-	fname   string
-	body    strings.Builder
-	nctr    int
-	vals    map[ssa.Value]Term
-	places  map[ssa.Value]*Place
-	blocks  map[*ssa.BasicBlock]*blockInfo
-	loops   map[*ssa.BasicBlock]*loopInfo
-	initial State
-	initEnv *Env
-	params  map[string]Term
-	obls    []*Obligation
-	cur     *ssa.BasicBlock
-	st      State
-	dry     bool
-	callCnt map[string]int
-	notes   []string
-	unsup   []string
-	results []Term
-	modelVs []ModelVar
-	oblSeen map[string]int
-	storeCnt map[string]int
-	entryAssumes []string
-	retCnt  int
-	panicCnt int
-	deferred []*ssa.Defer
-	allocPos map[token.Pos]*ssa.Alloc
+	w             *World
+	fn            *ssa.Function
+	fc            *FuncContract
+	behav         string
+	fname         string
+	body          strings.Builder
+	nctr          int
+	vals          map[ssa.Value]Term
+	places        map[ssa.Value]*Place
+	blocks        map[*ssa.BasicBlock]*blockInfo
+	loops         map[*ssa.BasicBlock]*loopInfo
+	initial       State
+	initEnv       *Env
+	params        map[string]Term
+	obls          []*Obligation
+	cur           *ssa.BasicBlock
+	st            State
+	dry           bool
+	callCnt       map[string]int
+	notes         []string
+	unsup         []string
+	results       []Term
+	modelVs       []ModelVar
+	oblSeen       map[string]int
+	storeCnt      map[string]int
+	usedClause    map[*Clause]bool
+	usedGhostSet  map[int]bool
+	staleGhostSet map[int]string
+	entryAssumes  []string
+	retCnt        int
+	panicCnt      int
+	deferred      []*ssa.Defer
+	allocPos      map[token.Pos]*ssa.Alloc
 	safetyAssumed int
-	behavClause bool
-	callOrd  map[*ssa.CallCommon]int
-	symHeaps map[string]bool // non-nil while the body of a recursive spec function is translated
-	localSorts map[string]string
-	localTypes map[string]types.Type
-	localNames map[string]string
-	tuples map[ssa.Value][]Term
+	behavClause   bool
+	callOrd       map[*ssa.CallCommon]int
+	symHeaps      map[string]bool // non-nil while the body of a recursive spec function is translated
+	localSorts    map[string]string
+	localTypes    map[string]types.Type
+	localNames    map[string]string
+	tuples        map[ssa.Value][]Term
 }
 
 func (v *FnVC) fresh(prefix string) string {
@@ -884,6 +887,11 @@ func (v *FnVC) translateAll() {
 	v.params = map[string]Term{}
 	v.callCnt = map[string]int{}
 	v.storeCnt = map[string]int{}
+	if v.usedClause == nil {
+		v.usedClause = map[*Clause]bool{}
+		v.usedGhostSet = map[int]bool{}
+		v.staleGhostSet = map[int]string{}
+	}
 	v.modelVs = nil
 	v.entryAssumes = nil
 	v.retCnt = 0
@@ -945,7 +953,7 @@ func (v *FnVC) translateAll() {
 	for _, ri := range v.fc.ReplayInputs {
 		e, err := ParseExpr(ri[1])
 		if err != nil {
-			panic(specError{"replay-input " + ri[0] + ": " + err.Error()})
+			panic(specError{msg: "replay-input " + ri[0] + ": " + err.Error()})
 		}
 		t := v.specTerm(e, v.initEnv, nil)
 		v.modelVs = append(v.modelVs, ModelVar{ri[0], v.define("ri", v.sortOf(t.T), t.S), "int"})
@@ -1165,6 +1173,7 @@ func (v *FnVC) loopClauses(l *loopInfo, kind string) []*Clause {
 		for _, k := range l.key {
 			if cl.Loop == k {
 				out = append(out, cl)
+				v.usedClause[cl] = true
 			}
 		}
 	}
@@ -1477,15 +1486,16 @@ func storesThrough(fn *ssa.Function, fv *ssa.FreeVar) bool {
 
 // ghostSets executes the contract's ghost assignments anchored at `anchor`.
 func (v *FnVC) ghostSets(anchor string, env *Env) {
-	for _, gs := range v.fc.GhostSets {
+	for i, gs := range v.fc.GhostSets {
 		if gs[0] != anchor {
 			continue
 		}
+		v.usedGhostSet[i] = true
 		e2 := env
 		if e2 == v.initEnv {
 			e2 = v.newEnv(v.st, v.initEnv)
 			e2.entry = true
 		}
-		v.ghostAssign(gs[1], gs[2], e2)
+		v.ghostAssignSafe(i, gs[1], gs[2], e2)
 	}
 }
